@@ -1218,6 +1218,23 @@ func (e *CEnv) callExpr(x *CExpr) (Val, error) {
 		}
 		c.smt.declareFun("time_nanos", []string{c.sortOf(c.eng.timeType())}, "Int")
 		return Val{T: tInt, Term: app("time_nanos", as[0].Term)}, nil
+	case "lastreceived":
+		// lastreceived(ch): the value most recently received from ch by this function
+		as, err := evalArgs()
+		if err != nil {
+			return Val{}, err
+		}
+		cht, ok := as[0].T.Underlying().(*types.Chan)
+		if !ok {
+			return Val{}, fmt.Errorf("lastreceived needs a channel")
+		}
+		lg := "lastreceived." + sortTag(c.sortOf(cht.Elem()))
+		c.ghostSorts[lg] = "(Array Int " + c.sortOf(cht.Elem()) + ")"
+		g, ok := e.st.ghost[lg]
+		if !ok {
+			g = c.ghostInit(lg)
+		}
+		return Val{T: cht.Elem(), Term: sel(g, as[0].Term)}, nil
 	case "lastsent":
 		// lastsent(ch): the value most recently sent on ch by this function
 		as, err := evalArgs()
